@@ -60,6 +60,31 @@ Proof.
   exact (G 0).
 Qed.
 
+
+(** ** rows of the flat array
+
+    [row_out] reads its row only at cells that passed the unsigned range test, so the row
+    may be replaced by its restriction to [0,n): this is what makes "the row" of a flat
+    bunch-major array (whose index function runs on into the next row) a well-defined object. *)
+Definition rtrunc (n : Z) (r : Z -> Qc) (u : Z) : Qc :=
+  if ((0 <=? u) && (u <? n))%bool then r u else 0%Qc.
+
+Lemma row_out_trunc n it E r y : row_out n it E r y = row_out n it E (rtrunc n r) y.
+Proof.
+  unfold row_out. f_equal. apply map_ext. intros j. cbv zeta.
+  destruct (wrap32 (y + fst (E j) - n / 2) <? n) eqn:T; [|reflexivity].
+  unfold rtrunc. rewrite T.
+  assert (P : 0 <= wrap32 (y + fst (E j) - n / 2)) by (unfold wrap32; apply Z.mod_pos_bound; reflexivity).
+  apply Z.leb_le in P. rewrite P. reflexivity.
+Qed.
+
+Lemma sum_rtrunc n r : 0 <= n -> sumQ 0 (Z.to_nat n) (rtrunc n r) = sumQ 0 (Z.to_nat n) r.
+Proof.
+  intros Hn. apply (sumZ_ext QcF). intros i Hi. unfold rtrunc.
+  assert (A : (0 <=? i) = true) by (apply Z.leb_le; lia).
+  assert (B : (i <? n) = true) by (apply Z.ltb_lt; lia). rewrite A, B. reflexivity.
+Qed.
+
 (** ** one row *)
 
 Section Row.
@@ -159,4 +184,15 @@ Proof.
       exact (coeffs_unity QcF it _ Hv).
     + intros j Hj. unfold zrange in Hj. apply in_map_iff in Hj. destruct Hj as (k & <- & Hk).
       apply in_seq in Hk. rewrite sm_entry_inrange by (assumption || lia). reflexivity.
+Qed.
+
+(** the same for a row given as a function that is meaningful on [0,n) only *)
+Theorem sm_row_conserves_trunc n it o r :
+  valid_it it -> 0 < n < 2 ^ 30 -> row_ok n it o (rtrunc n r) ->
+  sumQ 0 (Z.to_nat n) (row_out n it (sm_entry n it o) r) = sumQ 0 (Z.to_nat n) r.
+Proof.
+  intros Hv Hn Hr.
+  rewrite (sumZ_ext QcF _ _ _ (row_out n it (sm_entry n it o) (rtrunc n r)))
+    by (intros; apply row_out_trunc).
+  rewrite sm_row_conserves by assumption. apply sum_rtrunc. lia.
 Qed.
